@@ -13,6 +13,7 @@ import (
 	"sort"
 	"strings"
 	"sync"
+	"syscall"
 	"testing"
 	"time"
 
@@ -50,6 +51,10 @@ type verifCache struct {
 	trunc   map[string]int  // entry lost its tail: only the first k bytes are served
 	present map[string]bool // committed and not evicted
 	events  []verifEv
+	// afterHit, when set, runs once right after the next cache hit was handed out by the real
+	// cache and before the caller uses the reader: the place where a concurrent reader may run
+	// (schedule exploration without threads)
+	afterHit func()
 }
 
 func newVerifCache(inner cache.BlobCache) *verifCache {
@@ -78,6 +83,12 @@ func (c *verifCache) Get(key string, opts ...cache.Option) (cache.Reader, error)
 		return nil, err
 	}
 	c.events = append(c.events, verifEv{'h', key})
+	if h := c.afterHit; h != nil && !isTrunc {
+		c.afterHit = nil
+		c.mu.Unlock()
+		h()
+		c.mu.Lock()
+	}
 	if isTrunc {
 		all, _ := io.ReadAll(io.NewSectionReader(r, 0, 1<<40))
 		r.Close()
@@ -672,6 +683,99 @@ func (s *verifStack) opTrunc(out *verifutil.Out, rnd *verifutil.Rand) {
 	out.Count("trunc")
 }
 
+// opInterleave explores the schedule "another reader runs between a reader's cache hit and its use of
+// the entry": chunk c of a file is made the most recent entry of the cache, then it is read again and,
+// right after the cache handed out the hit, other chunks are read (and added to the cache, evicting
+// c from a small LRU) before the first reader copies its bytes. Oracle only; the model is resynced.
+func (s *verifStack) opInterleave(out *verifutil.Out, rnd *verifutil.Rand, regs []string) {
+	var withChunks []string
+	for _, p := range regs {
+		if fi, _ := s.fileOf(p); len(s.files[fi].chunks) > 0 {
+			withChunks = append(withChunks, p)
+		}
+	}
+	if len(withChunks) == 0 {
+		return
+	}
+	p := withChunks[rnd.Intn(len(withChunks))]
+	fi, _ := s.fileOf(p)
+	f := s.files[fi]
+	c := f.chunks[rnd.Intn(len(f.chunks))]
+	// victims: other chunks, read through their own paths
+	type victim struct {
+		p   string
+		fi  int
+		off int64
+		n   int64
+	}
+	var victims []victim
+	for _, q := range withChunks {
+		qi, _ := s.fileOf(q)
+		if qi == fi && q != p {
+			continue // another name of the same file
+		}
+		for _, qc := range s.files[qi].chunks {
+			if qi == fi && qc.ChunkOffset == c.ChunkOffset {
+				continue
+			}
+			victims = append(victims, victim{q, qi, qc.ChunkOffset, qc.ChunkSize})
+		}
+	}
+	if len(victims) == 0 {
+		return
+	}
+	for i := len(victims) - 1; i > 0; i-- {
+		j := rnd.Intn(i + 1)
+		victims[i], victims[j] = victims[j], victims[i]
+	}
+	if len(victims) > s.cfg.lru+12 {
+		victims = victims[:s.cfg.lru+12]
+	}
+	evict := func(fi int, off, size int64) {
+		s.wc.evict(reader.VerifC02GenID(s.files[fi].id, off, size))
+		out.Emit(fmt.Sprintf("evict %d %d %d", fi, off, size), "ok")
+	}
+	// make c the freshest entry
+	evict(fi, c.ChunkOffset, c.ChunkSize)
+	s.opRead(out, p, c.ChunkOffset, int(c.ChunkSize), verifNoFault, true)
+	for _, v := range victims {
+		evict(v.fi, v.off, v.n)
+	}
+	check := func(q string, qi int, off int64, n int, got []byte, errno syscall.Errno, who string) {
+		data := s.files[qi].data
+		var want []byte
+		if off < int64(len(data)) {
+			e := off + int64(n)
+			if e > int64(len(data)) {
+				e = int64(len(data))
+			}
+			want = data[off:e]
+		}
+		if errno != 0 {
+			out.Fail("interleaved-read-failed", fmt.Sprintf("%s: %q off=%d n=%d: %v [%s | %s]", who, q, off, n, errno, s.opts, s.cfg))
+		} else if !bytes.Equal(got, want) {
+			out.Fail("interleaved-read-bytes-differ", fmt.Sprintf("%s: %q off=%d n=%d returned bytes that differ from the tar, after another reader stored %d other chunks "+
+				"between this reader's cache hit and its use of the entry [%s | %s]", who, q, off, n, len(victims), s.opts, s.cfg))
+		}
+	}
+	s.wc.mu.Lock()
+	s.wc.afterHit = func() {
+		for _, v := range victims {
+			got, errno := s.tree.Read(v.p, v.off, int(v.n))
+			check(v.p, v.fi, v.off, int(v.n), got, errno, "reader #2")
+		}
+	}
+	s.wc.mu.Unlock()
+	got, errno := s.tree.Read(p, c.ChunkOffset, int(c.ChunkSize))
+	s.wc.mu.Lock()
+	s.wc.afterHit = nil
+	s.wc.mu.Unlock()
+	check(p, fi, c.ChunkOffset, int(c.ChunkSize), got, errno, "reader #1")
+	out.Comment(fmt.Sprintf("interleave %d %d %d with %d others", fi, c.ChunkOffset, c.ChunkSize, len(victims)))
+	out.Count("interleave")
+	s.resync(out)
+}
+
 // dropHTTPCache removes every file of the compressed-blob directory cache (cache loss below the
 // chunk cache; oracle only).
 func (s *verifStack) dropHTTPCache(out *verifutil.Out) {
@@ -773,7 +877,7 @@ func verifHistory(t *testing.T, out *verifutil.Out, rnd *verifutil.Rand, s *veri
 	}
 	missing := []string{"nope", "a/nope", "a/c/d/e/f", "f/x", ".prefetch.landmark", ".no.prefetch.landmark", "stargz.index.json"}
 	for i := 0; i < nops || len(pending) > 0; i++ {
-		kind := rnd.Pick(14, 3, 5, 2, 4, 2, 1, 2, 1, 1, 1)
+		kind := rnd.Pick(14, 3, 5, 2, 4, 2, 1, 2, 1, 1, 1, 2)
 		if i >= nops {
 			kind = 2
 		}
@@ -884,6 +988,12 @@ func verifHistory(t *testing.T, out *verifutil.Out, rnd *verifutil.Rand, s *veri
 				s.resync(out)
 			}
 			shape += "c"
+		case 11: // a second reader between a cache hit and its use
+			if !modelled || len(regs) == 0 {
+				continue
+			}
+			verifWatch(out, "interleave", 120*time.Second, func() { s.opInterleave(out, rnd, regs) })
+			shape += "i"
 		case 10: // read a whole file sequentially in small pieces through ONE handle
 			if len(regs) == 0 {
 				continue
@@ -1032,6 +1142,10 @@ func TestVerifC02(t *testing.T) {
 	for _, sc := range verifScenarios() {
 		cfg := verifGenStackCfg(rnd)
 		cfg.regChunk, cfg.verify = 16, true
+		if sc.name == "multi-chunk" || sc.name == "shared-member" {
+			// small on-memory LRU in front of the directory cache
+			cfg.fsCache, cfg.direct, cfg.lru = "dir", false, 1
+		}
 		s, err := verifNewStack(t, sc.ents, sc.opts, cfg)
 		if err != nil {
 			out.Fail("scenario-setup-failed", fmt.Sprintf("%s: %v", sc.name, err))
